@@ -417,6 +417,12 @@ class Fn:
                 if pe is not None:
                     return pe
             val = op.get("val")
+            # a named constant byte array (`const MAGIC: [u8; 3] = [31, 139, 8]`) is the array of its bytes
+            ind = op.get("indirect")
+            if val is None and isinstance(ind, dict) and isinstance(ind.get("hex"), str) and re.match(r"^\[u8; \d+\]$", str(op.get("ty", ""))) \
+                    and not ind.get("off") and len(ind["hex"]) <= 16:
+                bs = bytes.fromhex(ind["hex"])
+                return ("agg", "array", None, tuple((str(i), ("c", b, None, "u8")) for i, b in enumerate(bs)))
             if val is None and "runtime_check" in op:
                 val = 0
             if val is None and "slice" in op and "str" in op["slice"]:
